@@ -32,6 +32,18 @@ CLAIMED = {
          "The two-finger schema M(op) is proven correct on paper (loop invariant in sa/rules/c04.py); the check decides, from the current source, that each of &, |, ^, - is an instance of M(op): three-way split on the two heads, per-branch advance discipline (incl. the arity-dependent succ_next table), emission exactly where the truth table says, present side's own payload / fresh unregistered default of the absent side / correct mask, tails draining the right side, operands not written. Holds for all operand pairs. Not decided: tuple un-nesting of n-ary forms, leader-follower lookups, ANY-padded prefix matching.",
          "Trusts: operand streams strictly increasing (C01 + asserted precondition); default iteration delivers non-empty elements (C12.R1).",
          "DESIGN.md section 3, C04"),
+ "C05": ("syntax-directed path check of the populate generator (one yield per iteration, def-use of the offered reference, removal pairing, counter bookkeeping) + effect summary for source purity",
+         "Structural clauses of z << a: the loop iterates the source's default iteration and yields exactly once per element the source's own coordinate with (reference into z, source payload); the reference is the payload found by getPayload(allocate=False) or inserted by _create_payload before the yield; the only other destination writes are the paired deletions at bisect_left of the same coordinate under an emptiness test of the offered payload, with rank pop and counter bookkeeping; the source is never written; active ranges / rank id follow the definition. Not decided: final content for arbitrary loop bodies, nested composition.",
+         "Trusts: C01/C02 idioms (cross-checked there); the run-time assert on the popped fiber.",
+         "DESIGN.md section 3, C05"),
+ "C07": ("delegation-table check over resolved calls, effect summaries (non-Ref traversals are insert-free), dispatch-table lifting, path-predicate normalisation of the yield in iterRange, fromIterator argument classification",
+         "Structural clauses: the 18 traversal wrappers delegate with exactly the range arguments their definition names; non-Ref traversals have no tree/rank write effect and Ref traversals fetch each visited coordinate with getPayloadRef; format dispatch table {C,U}; iterRange's yield is guarded by coord >= start, coord < end and non-emptiness w.r.t. the fiber's default and stops at coord >= end; dense traversals iterate range(start,end,step); every lazy fiber is built from an iterator class re-instantiated per traversal. Not decided: project/prune, interval arithmetic, saved-position equivalence, eager/lazy materialisation equality.",
+         "Trusts: effect-engine typing tables; comparison normalisation in sa/pat.py.",
+         "DESIGN.md section 3, C07"),
+ "C12": ("one-predicate audit of every emptiness decision, recursion-shape checks, producer/consumer agreement of union mask literals, CFG exit classification of __eq__, effect summaries",
+         "Structural clauses: every emptiness decision is Payload.isEmpty(p, default=<holder>.getDefault()); countValues/isEmpty/nonEmpty have the stated recursion shape over the raw payload list; mask literals produced by | are exactly those consumers test; Fiber.__eq__ co-iterates the union, rejects each one-sided mask and each unequal pair and accepts only after the loop; Tensor.__eq__ = ids equal and roots equal; the queries are effect-free. Not decided: that equality is an equivalence relation, deep-copy equality, nonEmpty() equal to the original (relations over values).",
+         "Trusts: C04 (the union really delivers those masks).",
+         "DESIGN.md section 3, C12"),
 }
 
 NOT_APPLICABLE = {
